@@ -370,6 +370,9 @@ func storeDomain(lines []string) []string {
 					got = append(got, e)
 					if k == cancelAt {
 						cancel()
+						// give database/sql's watcher goroutine time to notice, so that the
+						// cancellation lands inside the current batch rather than after it
+						time.Sleep(2 * time.Millisecond)
 					}
 					if k == cbFail {
 						return errors.New("callback failure")
